@@ -62,7 +62,10 @@ ObsOK(o, F, L, D, P, N, K, TL, TD, M) ==
          /\ IF F = "v2" THEN r.in = "unsupported"
             ELSE ToSet(r.in) = {c \in L : r.id \in ToSet(M[c])} /\ NoDup(r.in)
     /\ \A s \in ToSet(o.tstale) : s.id \in TD /\ s.v = FALSE
-    /\ \A b \in ToSet(o.tbyid) : b.r = (b.id \in TL)
+    \* track_by_id: a live track is found, a removed one is not.  (Ids that were never handed out are
+    \* left open: from 1.17.0 the schema keeps a NULL placeholder row above the highest id, which
+    \* track_by_id() reports although tracks() skips it - no listed property speaks about that.)
+    /\ \A b \in ToSet(o.tbyid) : (b.id \in TL => b.r) /\ (b.id \in TD => ~b.r)
 
 \* Observation bookkeeping (C16): the observation phase issued no write statement, changed no
 \* row, left the raw digest (and the files) as they were, and a repeated observation agreed.
